@@ -131,6 +131,8 @@ def op_misc(p):
         opts.append((p["set_at"], st.tuples(st.just("set_at"), st.lists(entry, max_size=3))))
     if p["reg_events"]:
         opts.append((1, st.tuples(st.just("reg"), st.sampled_from(["new", "here", "here"]), st.integers(0, 10 ** 6))))
+        if p.get("reg_delete", True):
+            opts.append((1, st.tuples(st.just("unreg"), st.integers(0, 7))))
     if p["rebase"] or p.get("rebase_w"):
         opts.append((1, st.tuples(st.just("rebase"), st.integers(0, 20), st.integers(0, 20), st.sampled_from([None, 0, 1]))))
     opts.append((1, st.tuples(st.just("feed"), st.sampled_from([600, 1200, 2400]))))
@@ -445,6 +447,10 @@ class Renderer(object):  # pylint: disable=too-many-instance-attributes
                     self.open = False
                 else:
                     self.enabled = True
+        elif k == "unreg":
+            if self.regions:
+                reg = self.regions.pop(o[1] % len(self.regions))
+                self.prog.append(["unreg", reg["id"]])
         elif k == "set_at":
             self.prog.append(["set_at", o[1]])
             self.atm = AtModel(o[1])
